@@ -192,7 +192,7 @@ theorem keeps_setS_keep (s mid : Nat) (l : L) (s' : Nat) (se : Sess) (h : se.del
     Keeps s mid l (l.setS s' se) := by
   have hd := delayq_setS_keep l s' s se h
   refine ⟨?_, ?_, fun _ => rfl⟩
-  · simp only [Phi, setS_now]; rw [hd]; rfl
+  · simp only [Phi]; rw [hd]; rfl
   · simp only [Psi]; rw [hd]; exact Nat.le_refl _
 
 theorem keeps_emit_other (s mid : Nat) (l : L) (o : Out) (h1 : nackW s mid o = 0)
